@@ -8,6 +8,6 @@ CONSTANTS
   MaxText = 6
   Widths = {1, 2, 3, 4}
 SPECIFICATION Spec
-INVARIANTS NoCrash LstRange DynRange LstLayout DynLayout PagerPresents PagerClamps
+INVARIANTS NoCrash LstRange DynRange LstLayout DynLayout PagerPresents PagerClamps OracleRows
 PROPERTIES VisibleAfterSelect
 CHECK_DEADLOCK FALSE
